@@ -17,7 +17,7 @@ A_CACHE = A_ENV + [
 ]
 O_CACHE = ["bursts longer than the stated number of calls, more client goroutines than stated, more than 3 keys", "cost magnitudes >= 2^40", "shards other than 0 and 1"]
 
-QUICK_PAIRS = {(0,1,1),(0,3,1),(1,1,1),(1,3,1),(1,7,1),(0,5,1),(2,4,1),(1,6,1),(3,7,1),(1,8,1),(1,9,1),(1,10,1),(0,1,0),(1,1,0)}
+QUICK_PAIRS = {(0,1,1),(1,3,1),(1,7,1)}
 
 MENU = {"set0": 1, "set1": 2, "set2": 4, "del0": 8, "get0": 16, "wait": 32, "ttl0": 64, "get1": 128, "del1": 256, "heavy0": 512, "clear": 1024}
 def menu(*names): return sum(MENU[n] for n in names)
